@@ -131,11 +131,15 @@ xds_strfu(signed char *d, const uint8_t *s, int len)
 static void
 flush_prog_info(vbi_decoder *vbi, vbi_program_info *pi, vbi_event *e)
 {
-	e->ev.aspect = pi->aspect;
+	vbi_aspect_ratio old_aspect = pi->aspect;
 
 	vbi_reset_prog_info(pi);
 
-	if (memcmp(&e->ev.aspect, &pi->aspect, sizeof(pi->aspect)) != 0) {
+	/* Only the current program is on screen. Announce
+	   what is stored now, not what was erased. */
+	if (!pi->future
+	    && memcmp(&old_aspect, &pi->aspect, sizeof(pi->aspect)) != 0) {
+		e->ev.aspect = pi->aspect;
 		e->type = VBI_EVENT_ASPECT;
 		caption_send_event(vbi, e);
 	}
